@@ -75,18 +75,58 @@ theorem getToken_nil : getToken [] = .ok (some .newline, 0, []) := by
 theorem ws_split {c : Char} (h : IsWs c) : c = '\n' ∨ c ∈ whitespaceNoNewline := by
   rcases ws_cases h with rfl | rfl | rfl | rfl | rfl | rfl <;> decide
 
-/-- the newline tokens of a separator that is followed by more text -/
+/-- a backslash-newline (line continuation) is skipped like a blank -/
+theorem getToken_cont (X : Str) : getToken ('\\' :: '\n' :: X) = getToken X := by
+  have : skipWhitespace ('\\' :: '\n' :: X) = skipWhitespace X := by
+    unfold skipWhitespace skipFrom
+    exact skipUntil_pair X (by decide)
+  simp only [getToken, this]
+
+/-- separators: characters of `charcodes::whitespace` and line continuations `\` newline -/
+inductive SepWF : Str → Prop
+  | nil : SepWF []
+  | ws {c : Char} {t : Str} : IsWs c → SepWF t → SepWF (c :: t)
+  | cont {t : Str} : SepWF t → SepWF ('\\' :: '\n' :: t)
+
+/-- the newline tokens of a separator that is followed by more text: one per newline that is not part
+    of a line continuation -/
 def sepMid : Str → List Tok
   | [] => []
+  | '\\' :: _ :: t => sepMid t
   | c :: t => if c = '\n' then .newline :: sepMid t else sepMid t
 
 /-- the newline tokens of a separator that ends the source: one per newline, and the end-of-source
-    newline when blanks follow the last newline -/
+    newline when blanks (or a continuation) follow the last newline -/
 def sepEnd : Str → List Tok
   | [] => []
+  | '\\' :: _ :: t => if t.isEmpty then [.newline] else sepEnd t
   | c :: t => if c = '\n' then .newline :: sepEnd t else if t.isEmpty then [.newline] else sepEnd t
 
-theorem noNul_ws {sep : Str} (h : ∀ c ∈ sep, IsWs c) : NoNul sep := fun c hc => (ws_facts (h c hc)).2.1
+theorem sepMid_cont (x : Char) (t : Str) : sepMid ('\\' :: x :: t) = sepMid t := by rw [sepMid]
+theorem sepMid_ws {c : Char} (hc : c ≠ '\\') (t : Str) :
+    sepMid (c :: t) = if c = '\n' then .newline :: sepMid t else sepMid t := by
+  rw [sepMid]; intro x t' h; exact absurd h hc
+theorem sepEnd_cont (x : Char) (t : Str) : sepEnd ('\\' :: x :: t) = if t.isEmpty then [.newline] else sepEnd t := by
+  rw [sepEnd]
+theorem sepEnd_ws {c : Char} (hc : c ≠ '\\') (t : Str) :
+    sepEnd (c :: t) = if c = '\n' then .newline :: sepEnd t else if t.isEmpty then [.newline] else sepEnd t := by
+  rw [sepEnd]; intro x t' h; exact absurd h hc
+
+theorem noNul_sep {sep : Str} (h : SepWF sep) : NoNul sep := by
+  induction h with
+  | nil => intro c hc; cases hc
+  | ws hc _ ih =>
+    intro x hx
+    rcases List.mem_cons.mp hx with rfl | hx
+    · exact (ws_facts hc).2.1
+    · exact ih x hx
+  | cont _ ih =>
+    intro x hx
+    rcases List.mem_cons.mp hx with rfl | hx
+    · decide
+    · rcases List.mem_cons.mp hx with rfl | hx
+      · decide
+      · exact ih x hx
 
 theorem noNul_append {a b : Str} (ha : NoNul a) (hb : NoNul b) : NoNul (a ++ b) := by
   intro c hc
@@ -94,49 +134,73 @@ theorem noNul_append {a b : Str} (ha : NoNul a) (hb : NoNul b) : NoNul (a ++ b) 
   · exact ha c h
   · exact hb c h
 
-theorem tk_sepMid {sep : Str} (hs : ∀ c ∈ sep, IsWs c) {R : Str} (hR : NoNul R) (hne : R ≠ []) (e : Nat) (a : List Tok) :
-    tk (sep ++ R) e a = tk R e ((sepMid sep).reverse ++ a) := by
-  induction sep generalizing a with
-  | nil => simp [sepMid]
-  | cons c t ih =>
-    have hc := hs c (by simp)
-    have ht : ∀ x ∈ t, IsWs x := fun x hx => hs x (by simp [hx])
-    have hn : NoNul (c :: (t ++ R)) := noNul_append (a := c :: t) (noNul_ws hs) hR
-    have hn' : NoNul (t ++ R) := noNul_append (noNul_ws ht) hR
-    have hne' : t ++ R ≠ [] := by simp [hne]
-    rcases ws_split hc with rfl | hw
-    · rw [List.cons_append, tk_step hn (by simp) (getToken_newline _), Nat.add_zero, ih ht]
-      simp [sepMid, pushTok]
-    · -- the blank is skipped by the getToken that reads what follows
-      obtain ⟨tok, e', r', eg, sg, lg⟩ := getToken_progress (t ++ R) hn' hne'
-      have eg' : getToken (c :: (t ++ R)) = .ok (tok, e', r') := by rw [getToken_skip hw]; exact eg
-      have hcn : c ≠ '\n' := by intro e; subst e; revert hw; decide
-      rw [List.cons_append, tk_step hn (by simp) eg', ← tk_step hn' hne' eg, ih ht]
-      simp [sepMid, hcn]
+/-- a prefix that the next getToken skips does not change the token loop (when something follows) -/
+theorem tk_skip_prefix {P X : Str} (hg : getToken (P ++ X) = getToken X) (hP : NoNul (P ++ X)) (hX : NoNul X)
+    (hne : X ≠ []) (e : Nat) (a : List Tok) : tk (P ++ X) e a = tk X e a := by
+  obtain ⟨tok, e', r', eg, _, _⟩ := getToken_progress X hX hne
+  have hne' : P ++ X ≠ [] := by simp [hne]
+  rw [tk_step hP hne' (hg.trans eg), tk_step hX hne eg]
 
-theorem tk_sepEnd {sep : Str} (hs : ∀ c ∈ sep, IsWs c) (e : Nat) (a : List Tok) :
-    tk sep e a = .ok ⟨a.reverse ++ sepEnd sep, e⟩ := by
-  induction sep generalizing a with
-  | nil => simp [tk_nil, sepEnd]
-  | cons c t ih =>
-    have hc := hs c (by simp)
-    have ht : ∀ x ∈ t, IsWs x := fun x hx => hs x (by simp [hx])
-    have hn : NoNul (c :: t) := noNul_ws hs
+theorem tk_sepMid {sep : Str} (hs : SepWF sep) {R : Str} (hR : NoNul R) (hne : R ≠ []) (e : Nat) (a : List Tok) :
+    tk (sep ++ R) e a = tk R e ((sepMid sep).reverse ++ a) := by
+  induction hs generalizing a with
+  | nil => simp [sepMid]
+  | @ws c t hc ht ih =>
+    have hn : NoNul (c :: (t ++ R)) := noNul_append (a := c :: t) (noNul_sep (SepWF.ws hc ht)) hR
+    have hn' : NoNul (t ++ R) := noNul_append (noNul_sep ht) hR
+    have hne' : t ++ R ≠ [] := by simp [hne]
+    have hcb : c ≠ '\\' := (ws_facts hc).1
     rcases ws_split hc with rfl | hw
-    · rw [tk_step hn (by simp) (getToken_newline _), Nat.add_zero, ih ht]
-      simp [sepEnd, pushTok]
+    · rw [List.cons_append, tk_step hn (by simp) (getToken_newline _), Nat.add_zero, ih]
+      simp [sepMid_ws hcb, pushTok]
+    · have hcn : c ≠ '\n' := by intro e; subst e; revert hw; decide
+      have := tk_skip_prefix (P := [c]) (X := t ++ R) (getToken_skip hw _) hn hn' hne' e a
+      simp only [List.cons_append, List.nil_append] at this ⊢
+      rw [this, ih]
+      simp [sepMid_ws hcb, hcn]
+  | @cont t ht ih =>
+    have hn : NoNul ('\\' :: '\n' :: (t ++ R)) := noNul_append (a := '\\' :: '\n' :: t) (noNul_sep (SepWF.cont ht)) hR
+    have hn' : NoNul (t ++ R) := noNul_append (noNul_sep ht) hR
+    have hne' : t ++ R ≠ [] := by simp [hne]
+    have := tk_skip_prefix (P := ['\\', '\n']) (X := t ++ R) (getToken_cont _) hn hn' hne' e a
+    simp only [List.cons_append, List.nil_append] at this ⊢
+    rw [this, ih, sepMid_cont]
+
+theorem tk_sepEnd {sep : Str} (hs : SepWF sep) (e : Nat) (a : List Tok) :
+    tk sep e a = .ok ⟨a.reverse ++ sepEnd sep, e⟩ := by
+  induction hs generalizing a with
+  | nil => simp [tk_nil, sepEnd]
+  | @ws c t hc ht ih =>
+    have hn : NoNul (c :: t) := noNul_sep (SepWF.ws hc ht)
+    have hcb : c ≠ '\\' := (ws_facts hc).1
+    rcases ws_split hc with rfl | hw
+    · rw [tk_step hn (by simp) (getToken_newline _), Nat.add_zero, ih]
+      simp [sepEnd_ws hcb, pushTok]
     · have hcn : c ≠ '\n' := by intro e; subst e; revert hw; decide
       cases t with
       | nil =>
         have eg : getToken [c] = .ok (some .newline, 0, []) := by rw [getToken_skip hw]; exact getToken_nil
         rw [tk_step hn (by simp) eg, tk_nil]
-        simp [sepEnd, hcn, pushTok]
+        simp [sepEnd_ws hcb, hcn, pushTok]
       | cons d t' =>
-        have hn' : NoNul (d :: t') := noNul_ws ht
-        obtain ⟨tok, e', r', eg, sg, lg⟩ := getToken_progress (d :: t') hn' (by simp)
-        have eg' : getToken (c :: d :: t') = .ok (tok, e', r') := by rw [getToken_skip hw]; exact eg
-        rw [tk_step hn (by simp) eg', ← tk_step hn' (by simp) eg, ih ht]
-        simp [sepEnd, hcn]
+        have hn' : NoNul (d :: t') := noNul_sep ht
+        have := tk_skip_prefix (P := [c]) (X := d :: t') (getToken_skip hw _) hn hn' (by simp) e a
+        simp only [List.cons_append, List.nil_append] at this
+        rw [this, ih]
+        simp [sepEnd_ws hcb, hcn]
+  | @cont t ht ih =>
+    have hn : NoNul ('\\' :: '\n' :: t) := noNul_sep (SepWF.cont ht)
+    cases t with
+    | nil =>
+      have eg : getToken ['\\', '\n'] = .ok (some .newline, 0, []) := by rw [getToken_cont]; exact getToken_nil
+      rw [tk_step hn (by simp) eg, tk_nil]
+      simp [sepEnd_cont, pushTok]
+    | cons d t' =>
+      have hn' : NoNul (d :: t') := noNul_sep ht
+      have := tk_skip_prefix (P := ['\\', '\n']) (X := d :: t') (getToken_cont _) hn hn' (by simp) e a
+      simp only [List.cons_append, List.nil_append] at this
+      rw [this, ih, sepEnd_cont]
+      simp
 
 /-! ### NUL-free spellings -/
 
